@@ -95,6 +95,8 @@ def check_value(acc, pendulum, label, x, case, eq=True, depth2=False):
             continue
         if eq and not (y == x):
             acc.mismatch(label, f"{rcls}/not-equal", dict(case, route=rname), "copy != original", "copy == original")
+        elif eq and (y != x or hash(y) != hash(x)):
+            acc.mismatch(label, f"{rcls}/ne-or-hash", dict(case, route=rname), [y != x, hash(y) == hash(x)], [False, True])
 
 
 # ---- seed builders (each returns (label, value, case) from a JSON-able case) -----------------------------
